@@ -495,7 +495,7 @@ def r3(report, db, cg, F):
                     fi.qualname,
                     'result of %s %s: a truncated stream yields a shorter '
                     'value instead of an error' % (ast.unparse(node), v))
-    report.floor('raw stream reads in codec code', n, 15)
+    report.floor('raw stream reads in codec code', n, 10)
 
 
 def enclosing_block(fnode, stmt):
@@ -542,6 +542,11 @@ def r4(report, db, F, basic, ref):
             raise AnalysisError('wire type %s vanished' % name)
         rd, sd = db.own_method(ci, 'read'), db.own_method(ci, 'send')
         n += 1
+        if rd is None or sd is None:
+            # shared code parametrised by the class (a mixin, a base class):
+            # decided on the path summaries made for this very class
+            prefixed_ps(report, R, db, ci, name, spec)
+            continue
         # ---- send
         val, effects, env = terms.straight_line_value(sd)
         sock = sd.all_params[1] if len(sd.params) > 1 else None
@@ -633,6 +638,127 @@ def r4(report, db, F, basic, ref):
     n += 1
     check_prefixed_array(report, R, db, ci)
     report.floor('length-prefixed codecs', n, 4)
+
+
+def prefixed_ps(report, R, db, ci, name, spec):
+    """R02.4 on path summaries, for codec methods the class inherits: the
+    class-level constants (which prefix type) resolve through its MRO."""
+    from ..callgraph import CallGraph
+    from .. import shared
+    from ..pathsum import struct as st_, show, subterms
+    S = report.__dict__.get('_s2')
+    if S is None:
+        S = report.__dict__['_s2'] = shared.summariser(db, CallGraph(db))
+    rd, sd = db.find_method(ci, 'read'), db.find_method(ci, 'send')
+    if rd is None or sd is None:
+        raise AnalysisError('%s lacks read/send' % name, ci.node,
+                            rel(ci.path))
+
+    def pars(fi):
+        ps = fi.all_params
+        return ps[1:] if fi.kind in ('class', 'instance') else ps
+
+    def codec_of(e):
+        """class name of the wire type whose read/send the event calls"""
+        if e.fn[0] == 'fn' and e.fn[1].cls is not None:
+            return e.fn[1].cls.name
+        if e.fn[0] == 'attr' and e.fn[1][0] == 'cls':
+            return e.fn[1][1].name
+        return None
+    # -- send
+    vname, sname = pars(sd)[:2]
+    val, sock = ('sym', vname), ('sym', sname)
+    msgs = []
+    nsend = 0
+    for p in S.run(sd, exact_self=ci):
+        if not p.returns:
+            continue
+        nsend += 1
+        evs = [e for e in p.flat(('call',)) if e.method() in (
+            'send', 'send_with_context')]
+        raw = [e for e in evs if (e.fn[0] == 'attr' and st_(e.fn[1]) == sock)
+               or (e.fn[0] == 'fn' and len(e.fn) > 2 and e.fn[2] is not None
+                   and st_(e.fn[2]) == sock and codec_of(e) in (
+                       None, 'PacketBuffer'))]
+        pre = [e for e in evs if e not in raw]
+        if len(raw) != 1 or len(pre) != 1 or evs.index(pre[0]) > \
+                evs.index(raw[0]):
+            msgs.append(('send', 'a path writes %d prefix(es) and %d '
+                         'payload(s) [%s]' % (len(pre), len(raw),
+                                              p.cond_text()[:60])))
+            continue
+        pay = raw[0].args[-1]
+        if codec_of(pre[0]) != spec['prefix']:
+            msgs.append(('send', 'length is written as %s, protocol '
+                         'prescribes %s' % (codec_of(pre[0]),
+                                            spec['prefix'])))
+        ln = pre[0].args[0] if pre[0].args else None
+        if ln is None or st_(ln) != ('op', 'len', (st_(pay),)):
+            msgs.append(('send', 'prefix is %s but the payload sent is %s'
+                         % (show(ln) if ln else None, show(pay))))
+        if spec['payload'] == 'utf-8':
+            if not (pay[0] == 'call' and pay[1][0] == 'attr' and
+                    pay[1][2] == 'encode' and st_(pay[1][1]) == val and
+                    [x for x in pay[2]] in ([('const', 'utf-8')],
+                                            [('const', 'utf8')], [])):
+                msgs.append(('send', 'payload is not the UTF-8 encoding of '
+                             'the value (%s)' % show(pay)))
+        elif st_(pay) != val:
+            msgs.append(('send', 'payload sent is %s, not the value '
+                         'parameter' % show(pay)))
+    if not nsend:
+        raise AnalysisError('%s.send: no returning path' % name, sd.node,
+                            rel(sd.path))
+    # -- read
+    stream = ('sym', pars(rd)[0])
+    nread = 0
+    for p in S.run(rd, exact_self=ci):
+        if not p.returns:
+            continue
+        reads = [e for e in p.flat(('call',)) if e.method() in (
+            'read', 'read_with_context')]
+        raw = [e for e in reads if e.fn[0] == 'attr' and
+               st_(e.fn[1]) == stream]
+        pre = [e for e in reads if e not in raw]
+        if any(a[1] == 'is' and a[2][1] == ('const', None) and pol and
+               any(st_(a[2][0]) == st_(e.res) for e in pre)
+               for a, pol, _ in p.conds):
+            continue    # a decoded length is a number, never None
+        nread += 1
+        if len(raw) != 1 or len(pre) != 1 or reads.index(pre[0]) > \
+                reads.index(raw[0]):
+            msgs.append(('read', 'a path reads %d prefix(es) and %d '
+                         'payload(s) [%s]' % (len(pre), len(raw),
+                                              p.cond_text()[:60])))
+            continue
+        if codec_of(pre[0]) != spec['prefix']:
+            msgs.append(('read', 'length is read as %s, protocol prescribes '
+                         '%s' % (codec_of(pre[0]), spec['prefix'])))
+        if [st_(a) for a in raw[0].args] != [st_(pre[0].res)]:
+            msgs.append(('read', 'the raw read asks for %s, not for the '
+                         'decoded length [%s]' % (
+                             [show(a) for a in raw[0].args],
+                             p.cond_text()[:80])))
+        if p.value is None or not any(st_(t) == st_(raw[0].res)
+                                      for t in subterms(p.value)):
+            msgs.append(('read', 'what is returned (%s) does not come from '
+                         'the bytes read' % (show(p.value)[:50]
+                                             if p.value else None)))
+    if not nread:
+        raise AnalysisError('%s.read: no returning path' % name, rd.node,
+                            rel(rd.path))
+    seen = set()
+    for side, mm in msgs:
+        if (side, mm) in seen:
+            continue
+        seen.add((side, mm))
+        fi = sd if side == 'send' else rd
+        report.violation(R, 'prefix:%s.%s' % (name, side), fi.path, fi.node,
+                         fi.qualname, '%s: %s' % (name, mm))
+    if not msgs:
+        report.ok(R, '%s: %s(len(x)) then x; n = %s.read, read(n) '
+                  '(inherited code, summarised for this class)'
+                  % (name, spec['prefix'], spec['prefix']))
 
 
 def prefix_send(e):
